@@ -912,6 +912,8 @@ package server
 //@   entry-assume registriesNonNil(s) && allstr(k, (*s.cols)[k] != nil ==> colInv((*s.cols)[k]))
 //@   requires s != nil && msg != nil
 //@   modifies steps, perCall
+//@   ensures [flushdb.model] result2 == nil ==> datasetEmpty(s) && result1.updated
+//@   ensures [error-changes-nothing] result2 != nil ==> *s.cols == old(*s.cols) && colsUntouched()
 //@   ensures [json-reply] result2 == nil && msg.OutputType == JSON ==> jsonDoc(result0)
 
 // ---- webhook queue mechanics (C10, the part inside one function) ------------------------------------------
@@ -1080,6 +1082,11 @@ package server
 //@ func Server.cmdScan
 //@   frame-by-effects
 //@   entry-assume s != nil && msg != nil && len(msg.Args) > 0 && s.config != nil
+// COUNT shortcut of SCAN (C12): taken only when no filter can reject anything; then the count is the number of objects
+// of the collection minus the cursor offset, not below zero - what the walk over all ids would count
+//@   modifies steps, perCall
+//@   at-call Collection.Count [shortcut-only-without-filters] len(sw.wheres) == 0 && len(sw.whereins) == 0 && len(sw.whereevals) == 0 && sw.globEverything && sw.output == outputCount
+//@   at-call scanWriter.writeFoot#1 [shortcut-count] args.cursor < 9223372036854775808 && ierr == nil && sw.col != nil && sw.output == outputCount && len(sw.wheres) == 0 && len(sw.whereins) == 0 && len(sw.whereevals) == 0 && sw.globEverything ==> sw.count == max(sw.col.objects + sw.col.nobjects - args.cursor, 0)
 //@ func Server.cmdWITHINorINTERSECTS
 //@   frame-by-effects
 //@   entry-assume s != nil && msg != nil && len(msg.Args) > 0 && s.config != nil
